@@ -483,6 +483,36 @@ class Machine:
             for a in p:
                 out += [7777] + snap(a)
             return out
+        if t == "eq":
+            a, b = p[op[1]], p[op[2]]
+
+            def ev(x, y, neg=False):
+                try:
+                    v = (x != y) if neg else (x == y)
+                    return 1 if v is True else 0 if v is False else 3
+                except Exception as e:  # noqa: BLE001
+                    self.exc.append(exc_class(e))
+                    return 2
+            r0, r1 = ev(a, b), ev(b, a)
+            hg.util.relativeTolerance = hg.util.absoluteTolerance = op[3]
+            try:
+                r2 = ev(a, b)
+            finally:
+                hg.util.relativeTolerance = hg.util.absoluteTolerance = 0.0
+            # facts about the implementation alone, for the oracle
+            if not hasattr(self, "eqlog"):
+                self.eqlog = {}
+            fact = {"ne": ev(a, b, True), "docs_equal": a.toJson() == b.toJson(),
+                    "qsig_equal": qsig(a) == qsig(b)}
+            if op[1] == op[2]:
+                import pickle
+                try:
+                    c = pickle.loads(pickle.dumps(a))
+                    fact["pickle"] = [ev(c, a), ev(a, c), c.toJson() == a.toJson()]
+                except Exception as e:  # noqa: BLE001
+                    fact["pickle"] = "raised %s" % type(e).__name__
+            self.eqlog[len(self.eqlog)] = fact
+            return [r0, r1, r2]
         raise ValueError(t)
 
     def run(self, ops):
@@ -509,6 +539,30 @@ def fixed_children(h):
     if n in ("Index", "Branch"):
         return list(d["values"])
     return []
+
+
+def _code(f):
+    e = getattr(f, "expr", None)
+    if e is None:
+        return None
+    c = getattr(e, "__code__", None)
+    return c.co_code if c is not None else repr(e)
+
+
+def qsig(h):
+    """what == may legitimately see beyond the JSON document: quantity names and code, Count's
+    transform, and the template of sparse containers"""
+    if h is None:
+        return None
+    d = h.__dict__
+    q = d.get("quantity")
+    qs = (getattr(q, "name", None), _code(q)) if q is not None else None
+    tr = _code(d["transform"]) if h.name == "Count" else None
+    tm = None
+    if h.name in ("SparselyBin", "Categorize") and d.get("value") is not None:
+        tm = (qsig(d["value"]), d["value"].toJson())      # the template's own parameters count too
+    return (h.name, qs, tr, [qsig(c) for c in fixed_children(h)],
+            [qsig(c) for c in sparse_children(h)], tm)
 
 
 def sparse_children(h):
